@@ -9,6 +9,10 @@ RANGE_INDEX = re.compile(r"(ops::Index<.*> for str>::index$|SliceIndex<str>.*>::
                          r"^<std::string::String as std::ops::Index<.*>>::index$|as std::ops::Index(Mut)?<.*>>::index(_mut)?$)")
 BORROW = re.compile(r'^std::cell::RefCell::<T>::borrow(_mut)?$')
 TLS = re.compile(r'^std::thread::LocalKey::<T>::with$')
+# std operations that panic on an index / byte offset that is out of range or not on a char boundary
+STD_INDEXED = re.compile(r"^std::string::String::(truncate|insert|insert_str|remove|split_off|drain|replace_range)$|^core::str::<impl str>::(split_at|split_at_mut)$|"
+                         r"^std::vec::Vec::<T, A>::(remove|insert|swap_remove|split_off|drain)$|^core::slice::<impl \[T\]>::(split_at|split_at_mut|copy_from_slice|clone_from_slice|swap)$|"
+                         r"^std::collections::VecDeque::<T, A>::(insert|swap)$")
 ARITH = re.compile(r'^<std::time::(Instant|Duration|SystemTime) as std::ops::(Add|Sub)(<.*>)?>::(add|sub)$')
 
 
@@ -39,6 +43,8 @@ def sites_of(body):
                 kind, what = 'tls', 'LocalKey::with'
             elif ARITH.search(n):
                 kind, what = 'time-arith', n
+            elif STD_INDEXED.search(n):
+                kind, what = 'index', n.split('::')[-2].split('<')[0] + '::' + n.split('::')[-1] + ' (panics on an out-of-range / non-boundary index)'
             if kind:
                 out.append({'kind': kind, 'what': what, 'bb': bb, 'line': t['line'], 'exp': t.get('exp', False)})
     return out
